@@ -67,6 +67,11 @@ def directed_plans(tier):
     for k_, (kind_, th_) in enumerate((('fixed', None), ('weighted', [2.0, 0.5]), ('fixed', None))):
         out.append({**base, 'mode': 'signal_scale', 'kind': kind_, 'theta': th_, 'n_channel': 7 + k_, 'n_sim': 2, 'serve_seed': 1234 + k_,
                     'signals': [1e-16, 1e-12, 1e-8, 1e-3, 1.0, 1e6, 1e12], 'use_same_signal': bool(k_ % 2), 'noise': 0})
+    # ... and model RDMs in small and large units (distances ~1e-9 and ~1e9) at signal 1 and 1e3
+    for k_, sc_ in enumerate((3e-5, 2e-3, 4e4)):
+        out.append({**base, 'mode': 'signal_scale', 'kind': 'fixed', 'theta': None, 'n_channel': 7, 'n_sim': 1, 'serve_seed': 4321 + k_,
+                    'points': [[[c_ * sc_ for c_ in row] for row in pp] for pp in base['points']],
+                    'signals': [1.0, 1e3], 'use_same_signal': False, 'noise': 0})
     # two histories (thorough tier VERIF_SEED=0; quick tier VERIF_SEED=6) on which the exact-signal construction breaks down
     # macroscopically: model RDMs with two identical conditions whose second-moment matrix makes scipy's LDL use a 2x2
     # pivot. Kept as directed scenarios so that the known finding is re-observed on every run.
